@@ -190,20 +190,20 @@ CONC_NOTE = SIM_NOTE + " Concurrent histories: oracles are sound necessary condi
 PROPERTIES = {
     "C19": {"level": "exploration", "jobs": c19_jobs, "engine": "flowcheck (native threads) + Miri",
             "technique": "runtime monitoring of a lock-free component under real threads: trace-based oracle (mutations serialised and shadowed under one mutex) with a logical lost-wake-up verdict, plus Miri's seeded scheduler, data-race and deadlock detection",
-            "level_text": "Real OS threads drive wait_for_available_space() with a hand-written executor while mutator threads call inc/dec through a wrapper that appends every counter update to a trace under the same mutex as the call it shadows. A waiter that returned must have been able to observe messages < max and then bytes < max inside its window of the trace; once all mutators are done and the final counters are below both limits, a waiter that is parked with its waker not fired can never run again, which is decided logically without a timeout; scripts where a single dec frees capacity must release every parked waiter. 10^5 (quick) / 10^6 (thorough) jittered native trials plus 64 / 2000 Miri schedules with data-race, weak-memory and deadlock checking. A sample of interleavings, not all of them.",
+            "level_text": "Real OS threads drive wait_for_available_space() with a hand-written executor while mutator threads call inc/dec through a wrapper that appends every counter update to a trace under the same mutex as the call it shadows. A waiter that returned must have been able to observe messages < max and then bytes < max inside the trace window of its *final poll* (the real code evaluates both counters in one poll); once all mutators are done and the final counters are below both limits, a waiter that is parked with its waker not fired can never run again, which is decided logically without a timeout; scripts where a single dec frees capacity must release every parked waiter; a patient script frees messages, takes them again and then frees bytes, so that capacity never exists until its last step. 10^5 (quick) / 10^6 (thorough) jittered native trials plus 64 / 2000 Miri schedules with data-race, weak-memory and deadlock checking. A sample of interleavings, not all of them.",
             "level_note": "Trusted base: the harness executor and trace wrapper (in half of the trials mutators are serialised against each other by the wrapper's mutex, in the other half they overlap freely; waiters never take the mutex), std::thread scheduling, Miri's scheduler. Held = held on the interleavings produced.",
             "assumptions": ["FlowControl is not wired into the server; it is exercised as the free-standing public component it is"]},
     "C06": {"level": "exploration", "jobs": c06_jobs, "engine": "dvsim",
             "technique": "runtime monitoring at logical quiescence: non-destructive lost-wake-up monitor (hook stats) over seeded waiter/cancel/availability step sequences on a paused clock",
-            "level_text": "The unbounded 'eventually woken' is restated as bounded progress: at a quiescent point of the paused runtime nothing can run without a new request or time passing, so a message in the backlog while a live consumer waits is a lost wake-up. Episodes interleave blocked Pulls and open StreamingPulls (batch limits 1-3) with publishes, nacks from other clients and deadline expiries, cancellations while parked, in the instant of the notification, and while the woken consumer's pull waits at a saturated mailbox; the monitor reads stats through the hook (never a probe pull) and reports only what persists over two barriers. Runs with and without seeded hook yields. Schedules are sampled.",
+            "level_text": "The unbounded 'eventually woken' is restated as bounded progress: at a quiescent point of the paused runtime nothing can run without a new request or time passing, so a message in the backlog while a live consumer waits is a lost wake-up. Episodes interleave blocked Pulls and open StreamingPulls (batch limits 1-3) with publishes, nacks from other clients and deadline expiries (also with acks and look-ups already on their way when the clock jumps past the deadline), cancellations while parked, in the instant of the notification, and while the woken consumer's pull waits at a saturated mailbox; the monitor reads stats through the hook (never a probe pull) and reports only what persists over two barriers. Runs with and without seeded hook yields. Schedules are sampled.",
             "level_note": CONC_NOTE if False else SIM_NOTE, "assumptions": ["liveness restated as: no backlog with a live waiting consumer at logical quiescence"]},
     "C10": {"level": "exploration", "jobs": c10_jobs, "engine": "dvsim",
             "technique": "runtime monitoring with a linearizability checker: per-name Wing-Gong/Lowe search over recorded concurrent control-plane histories, plus exact status checks in sequential walks",
-            "level_text": "4-8 clients hammer 2 topic names and 3 subscription names in 2 projects with create/get/list/delete and data-plane calls (racing creates, create racing delete, a different ack deadline per incarnation so reads identify it); the recorded history is split per name (P-compositionality) and searched for a linearization against a 2-state register specification with a two-point Delete (two overlapping deletes may both succeed; counted in the evidence) and optional effect for calls answered FAILED_PRECONDITION/INTERNAL. Sequential walks (C11 scenario) check every status exactly against the model. A search that exceeds its node budget is inconclusive. Schedules are sampled.",
+            "level_text": "4-8 clients hammer 2 topic names and 3 subscription names in 2 projects with create/get/list/delete and data-plane calls (racing creates, create racing delete, a different ack deadline per incarnation so reads identify it); the recorded history is split per name (P-compositionality) and searched for a linearization against a 2-state register specification with a two-point Delete (two overlapping deletes may both succeed; counted in the evidence) and optional effect for calls answered FAILED_PRECONDITION/INTERNAL. Half of the episodes add 2-4 clients released together by a barrier that issue the same create/delete on one name; the same scenario also runs on a 4-worker runtime with the real clock (a check-then-act without an await in between only interleaves there). Sequential walks (C11 scenario) check every status exactly against the model. A search that exceeds its node budget is inconclusive. Schedules are sampled.",
             "level_note": SIM_NOTE + " Histories are short by construction (<= 62 operations per name).", "assumptions": ["statuses that only a race with a deletion produces carry no information"]},
     "C11": {"level": "exploration", "jobs": c11_jobs, "engine": "dvsim",
             "technique": "runtime monitoring: cross-view consistency monitor at quiescent points plus the exact reference model over seeded delete/re-create walks with races",
-            "level_text": "Seeded walks over 2 topic names x 3 subscription names create, delete and re-create both kinds, publish, pull, ack and advance time, including DeleteSubscription / DeleteTopic / CreateSubscription racing a Publish; after every step the exact model must hold (incarnations, no re-attachment to a re-created namesake, `_deleted_topic_`, messages kept and served after the topic is gone, nothing delivered after deletion) and at every quiescent point ListTopicSubscriptions of every live topic must equal both the set of live subscriptions reporting that topic and the model's attachment set. Histories are sampled.",
+            "level_text": "Seeded walks over 2 topic names x 3 subscription names create, delete and re-create both kinds, publish, pull, ack and advance time, including DeleteSubscription / DeleteTopic / CreateSubscription racing a Publish (also inside a burst larger than the topic's mailbox), abandoned control-plane requests, and a DeleteTopic held back on the handle it looked up until the topic was deleted and re-created by somebody else; after every step the exact model must hold (incarnations, no re-attachment to a re-created namesake, `_deleted_topic_`, messages kept and served after the topic is gone, nothing delivered after deletion) and at every quiescent point ListTopicSubscriptions of every live topic must equal both the set of live subscriptions reporting that topic and the model's attachment set. Histories are sampled.",
             "level_note": SIM_NOTE, "assumptions": []},
     "C01": {"level": "exploration", "jobs": c01_jobs, "engine": "dvsim",
             "technique": "runtime monitoring of concurrent multi-client histories: conservation / at-least-once accounting with an exact end-of-episode drain on a virtual clock",
@@ -215,11 +215,11 @@ PROPERTIES = {
             "level_note": CONC_NOTE, "assumptions": []},
     "C08": {"level": "exploration", "jobs": c08_jobs, "engine": "dvsim",
             "technique": "runtime monitoring of concurrent publisher/consumer histories: order checker over Publish responses and first deliveries",
-            "level_text": "2-6 concurrent publishers (batches 1-8) race on one topic whose 2-3 subscriptions are read by consumers with small batch limits while bursts of pulls saturate the subscription mailboxes; the order checker requires one id per message in request order, ids increasing within a response and across happens-before-ordered publishes, and on every subscription first deliveries in id order (within a response by index, across responses whenever one is definitely earlier on the virtual clock), requests contiguous. Redeliveries are exempt. Schedules are sampled.",
+            "level_text": "2-6 concurrent publishers (batches 1-8) race on one topic whose 2-3 subscriptions are read by consumers with small batch limits while bursts of pulls saturate the subscription mailboxes; the order checker requires one id per message in request order, ids increasing within a response and across happens-before-ordered publishes, and on every subscription first deliveries in id order (within a response by index, across responses whenever one is definitely earlier on the virtual clock), requests contiguous; a subscription created and deleted in the same instant next to the publishers makes publishes fail half-way (their messages are judged by the ids the deliveries carry, and no id may be issued twice). Redeliveries are exempt. Schedules are sampled.",
             "level_note": CONC_NOTE, "assumptions": ["no consumer is cancelled in this profile, so every hand-out is observed and 'first delivery' is exact"]},
     "C09": {"level": "exploration", "jobs": c09_jobs, "engine": "dvsim + scripted push endpoint",
             "technique": "runtime monitoring: byte-exact identity checker over every delivery path (Pull, StreamingPull, push POST) across payload/attribute classes, redeliveries and topic re-creation",
-            "level_text": "Payload classes from empty to 1 MiB and attribute classes from none to 50 keys / non-ASCII / 4 KiB values are published, delivered at least three times each (first, after nack, after expiry) on two subscriptions through Pull and StreamingPull and POSTed to the scripted endpoint; every delivery is compared with the published record (data, attributes, the id Publish returned, constant publish_time) and ids must be unique across topics and across delete/re-create of a topic name. Concurrent histories add the same identity rules under load. Inputs are sampled by class.",
+            "level_text": "Payload classes from empty to 1 MiB and attribute classes from none to 50 keys / non-ASCII / 4 KiB values are published, delivered at least three times each (first, after nack, after expiry) on two subscriptions through Pull and StreamingPull and POSTed to the scripted endpoint; every delivery is compared with the published record (data, attributes, the id Publish returned, constant publish_time) and ids must be unique across topics and across delete/re-create of a topic name (every 8th episode: 25-60 topics created in one server lifetime). Concurrent histories add the same identity rules under load. Inputs are sampled by class.",
             "level_note": SIM_NOTE, "assumptions": ["id reuse after 2^32 messages or topics is out of reach"]},
     "C13": {"level": "exploration", "jobs": c13_jobs, "engine": "dvsim",
             "technique": "runtime monitoring against a creation-ordered reference list: complete pagination walks over a boundary grid and hostile page tokens, sequential episodes",
@@ -228,17 +228,17 @@ PROPERTIES = {
             "assumptions": ["no concurrent create/delete during a walk (the property's precondition)"]},
     "C15": {"level": "exploration", "jobs": c15_jobs, "engine": "dvsim",
             "technique": "runtime monitoring on a virtual clock against the reference model: boundary grid of batch limits x backlog sizes incl. the 16-bit wrap-around values, blocking pulls timed against the 5-minute limit",
-            "level_text": "max_messages over {1,2,999,1000,1001,65535,65536,65537,131071,i32::MAX} x backlog sizes around the same values (quick: up to 3000; thorough: up to 70000), with and without return_immediately, pulled until drained: no response exceeds its limit, none is empty while messages are available, a blocking pull with messages available returns in the same virtual instant; a blocking pull on an empty subscription returns empty after exactly the 5-minute wait and a parked one is woken by a publish; StreamingPull responses are checked against max_outstanding_messages {1,2,1000,65535}. Grid enumerated completely, sequences sampled.",
+            "level_text": "max_messages over {1,2,999,1000,1001,65535,65536,65537,131071,i32::MAX} x backlog sizes around the same values (quick: up to 3000; thorough: up to 70000), with and without return_immediately, pulled until drained: no response exceeds its limit, none is empty while messages are available, a blocking pull with messages available returns in the same virtual instant; a blocking pull on an empty subscription returns empty after exactly the 5-minute wait and a parked one is woken by a publish; 2-4 parked consumers met by one publish of 65536..131075 messages are all served; StreamingPull responses are checked against max_outstanding_messages {1,2,1000,65535}. Grid enumerated completely, sequences sampled.",
             "level_note": SIM_NOTE,
             "assumptions": []},
     "C17": {"level": "exploration", "jobs": c17_jobs, "engine": "dvsim",
             "technique": "runtime monitoring with structured hostile-input generators: every answer judged (status, no panic/hang), full observable state compared with the reference model after every rejection",
-            "level_text": "Thousands of sequential episodes send 20-30 requests with one corrupted field (or a pair) to a populated server: hostile and near-miss resource names in every RPC, boundary integers, ack-ID batches with one bad element at each position, hostile page tokens, unsupported push endpoints, malformed StreamingPull first and control messages. The monitor requires a gRPC status for each (never a panic, hang, UNKNOWN/INTERNAL or transport error), INVALID_ARGUMENT where C05/C13/C18 pin it, and after every error answer the hook stats of every subscription and all listings must equal the reference model's untouched state; at the end every subscription must still redeliver exactly the model's messages and a fresh round trip must work. Inputs are sampled from generators, so this is exploration.",
+            "level_text": "Thousands of sequential episodes send 20-30 requests with one corrupted field (or a pair) to a populated server: hostile and near-miss resource names in every RPC, boundary integers, ack-ID batches with one bad element at each position, hostile page tokens, unsupported push endpoints, malformed StreamingPull first and control messages; huge (hundreds of KiB) ASCII and non-ASCII strings; on the direct transport and over the full hyper/h2 path (where an undeliverable status shows as a broken stream). Life-cycle walks add creates rejected for a foreign-project topic that carry a push_config (the push registry must not change). The monitor requires a gRPC status for each (never a panic, hang, UNKNOWN/INTERNAL or transport error), INVALID_ARGUMENT where C05/C13/C18 pin it, and after every error answer the hook stats of every subscription and all listings must equal the reference model's untouched state; at the end every subscription must still redeliver exactly the model's messages and a fresh round trip must work. Inputs are sampled from generators, so this is exploration.",
             "level_note": SIM_NOTE + " INVALID_ARGUMENT is demanded only where a property pins it; elsewhere any ordinary status is admitted.",
             "assumptions": ["sequential episodes: statuses that only a race with a deletion can produce do not occur"]},
     "C05": {"level": "exploration", "jobs": c05_jobs, "engine": "dvsim",
             "technique": "runtime monitoring on a virtual clock against the reference model: boundary-value grid for N, probes around old and new deadlines, request-atomicity probes after rejections, unary and streaming paths",
-            "level_text": "For N over the boundary classes (1, 9, 10, 11, 30, 599, 600, 601, 100000, i32::MAX), three modification instants and both the unary RPC and the StreamingPull control message, the modified lease is probed 1 ms before and just after its new deadline and at its old one; N=0 is checked by probe and with a parked consumer; negative N and malformed ack IDs at every position of a batch must answer INVALID_ARGUMENT and leave both leases on their original deadlines; unknown and stale IDs must have no effect, and must not keep live IDs of the same request from being applied (dead IDs in front, duplicates, a modification that sets exactly the current deadline). Random histories and the exhaustive C02 alphabet (which contains nack and modify) add sequences. The grid is enumerated completely; the i32 range and histories are sampled by class.",
+            "level_text": "For N over the boundary classes (1, 9, 10, 11, 30, 599, 600, 601, 65535, 65536, 65541, 66135, 100000, 131079, i32::MAX), three modification instants and both the unary RPC and the StreamingPull control message, the modified lease is probed 1 ms before and just after its new deadline and at its old one; N=0 is checked by probe and with a parked consumer; negative N and malformed ack IDs at every position of a batch must answer INVALID_ARGUMENT and leave both leases on their original deadlines; unknown and stale IDs must have no effect, and must not keep live IDs of the same request from being applied (dead IDs in front, duplicates, a modification that sets exactly the current deadline). Random histories and the exhaustive C02 alphabet (which contains nack and modify) add sequences. The grid is enumerated completely; the i32 range and histories are sampled by class.",
             "level_note": SIM_NOTE,
             "assumptions": ["'malformed ack ID' = a string the server cannot have issued: empty, letters, embedded spaces, 26-digit numbers, full-width digits, negative or fractional numerals"]},
     "C04": {"level": "exploration", "jobs": c04_jobs, "engine": "dvsim",
@@ -248,32 +248,32 @@ PROPERTIES = {
             "assumptions": ["tokio timers have 1 ms resolution: expiry instants are observed rounded up to the next millisecond"]},
     "C02": {"level": "exploration", "jobs": c02_jobs, "engine": "dvsim",
             "technique": "runtime monitoring against an executable reference model: exhaustive bounded operation sequences + random sequential histories on a virtual clock, exact per-step oracle incl. stats of every subscription",
-            "level_text": "All sequences up to length 4 (quick) / 5 (thorough) over a 14-letter alphabet (publish, pulls, ack of oldest/newest/stale/unknown/repeated IDs, one request with a dead ID in front of every live ID, an ack 2 ms before the deadline followed by a clock jump past it, nack, modify, time advances to 1 ms before / just past the next deadline) run against the real services on a topic with two subscriptions, followed by three deadline crossings with full pulls; plus thousands of random 40-80 step histories. After every step the reference model must admit the response and the hook stats of both subscriptions must equal the model, so 'touches nothing else' is observed, not assumed. The bounded family is enumerated completely; longer histories are sampled.",
+            "level_text": "All sequences up to length 4 (quick) / 5 (thorough) over a 16-letter alphabet (publish, pulls, ack of oldest/newest/stale/unknown/repeated IDs, one request with a dead ID in front of every live ID, one live ID repeated as many times as there are leases, as many dead IDs as there are leases, an ack 2 ms before the deadline followed by a clock jump past it, nack, modify, time advances to 1 ms before / just past the next deadline) run against the real services on a topic with two subscriptions, followed by three deadline crossings with full pulls; plus thousands of random 40-80 step histories. After every step the reference model must admit the response and the hook stats of both subscriptions must equal the model, so 'touches nothing else' is observed, not assumed. The bounded family is enumerated completely; longer histories are sampled.",
             "level_note": SIM_NOTE,
             "assumptions": ["acks inside the expiry window [D, D+999 ms] assert nothing (ambiguous)"]},
     "C14": {"level": "fault_enumeration", "jobs": c14_jobs, "engine": "dvsim + scripted push endpoint",
             "technique": "fault injection with runtime monitoring: scripted HTTP endpoint enumerates per-attempt behaviour sequences; offline checker over the endpoint's request log",
-            "level_text": "The real push loop POSTs to a scripted raw-TCP HTTP endpoint inside the episode's runtime; every per-attempt behaviour sequence up to length 2 (quick) / 3 (thorough) over 17 behaviours (accepted and rejected statuses, interim 1xx, resets, late answers) is enumerated for 1 and 3 messages, plus closed-port and delete-while-failing episodes. The checker over the request log requires well-formed bodies naming the subscription, a re-POST after every failure within 2 intervals + margin, no POST after an accepted in-deadline answer for 5 virtual minutes, no POST for pull-only siblings and none after deletion. Complete enumeration of the fault family to the bound; timing uses wide margins because virtual time is lumpy with real sockets.",
+            "level_text": "The real push loop POSTs to a scripted raw-TCP HTTP endpoint inside the episode's runtime; every per-attempt behaviour sequence up to length 2 (quick) / 3 (thorough) over 17 behaviours (accepted and rejected statuses, interim 1xx, resets, late answers) is enumerated for 1 and 3 messages, plus closed-port and delete-while-failing episodes. The checker over the request log requires well-formed bodies naming the subscription, a re-POST after every failure within 2 intervals + margin, no POST after an accepted in-deadline answer for 5 virtual minutes, no POST for pull-only siblings and none after deletion. Life-cycle walks (create push to endpoint A or B / pull-only / rejected, delete subscription, delete and re-create topic, with name reuse and the push loop running) are compared with a reference model of name -> endpoint: every POST goes to the endpoint the named subscription had when the message was published, pull-only subscriptions keep their messages, and the push registry (hooked state) equals the model. Complete enumeration of the fault family to the bound; timing uses wide margins because virtual time is lumpy with real sockets.",
             "level_note": SIM_NOTE + " Real loopback sockets with a paused clock: time is monotone but lumpy, timing verdicts carry >=30 s margins; observations inside a margin are inconclusive.",
             "assumptions": ["ack deadline 60 s, push interval 1 s, 'late' = 90 s", "a connection closed right after accept stands in for 'refused' inside scripted sequences; a really closed port is covered by the special episodes"]},
     "C16": {"level": "fault_enumeration", "jobs": c16_jobs, "engine": "dvsim",
             "technique": "fault injection with runtime monitoring: poll-k-then-drop abandonment at every suspension point of every request kind, state compared with the two admissible outcomes at quiescence",
-            "level_text": "Every request kind (20) is abandoned after exactly k polls for k=1..14 under four mailbox saturation settings (complete enumeration, repeated with seeded scheduler yields), on the real services with the handler future living inside the dropped client future. After quiescence the client-visible state (listings, attachment, stats, push registry), a probe publish to every topic and message accounting after the deadline must equal 'request completed' or 'request never received'. Enumeration of crash points is complete for the direct transport up to k=14 (every kind completes in <=4 polls); schedules around it are sampled.",
+            "level_text": "Every request kind (20) is abandoned after exactly k polls for k=1..14 under four mailbox saturation settings (complete enumeration, repeated with seeded scheduler yields), on the real services with the handler future living inside the dropped client future. After quiescence the client-visible state (listings, attachment, stats, push registry), a probe publish to every topic and message accounting after the deadline must equal 'request completed' or 'request never received'; finally every subscription must still be deletable and its name creatable and attached again. Enumeration of crash points is complete for the direct transport up to k=14 (every kind completes in <=4 polls); schedules around it are sampled.",
             "level_note": SIM_NOTE + " Abandonment is injected on the direct transport only (exact crash points); over h2 cancellation arrives as RST_STREAM and is exercised by the C12/C06 stream aborts, not here.",
             "assumptions": ["a call still parked at quiescence with fewer than k polls is dropped there"]},
     "C18": {"level": "exploration", "jobs": c18_jobs, "engine": "dvsim (namescan mode)",
             "technique": "runtime monitoring of the parsing API: exhaustive structured input enumeration checked against an independent grammar oracle, plus gRPC round trips",
-            "level_text": "Both name parsers are executed on an exhaustively enumerated family of ~3.6 million strings around the two fixed segments (all single-character edits of the prefix and of both segments, double edits, foreign same-length segments, all project/ID fillers up to length 3/4 over an alphabet with '/', '-', digits, letters and a multi-byte character), on random longer strings, and through Create->echo->Get round trips of the real services. An independent grammar decides acceptance; echo acceptance, same-resource and fixed-point are checked for every accepted string. The family is finite and enumerated completely (exhaustive: true), but the property quantifies over all strings, so the level is exploration.",
+            "level_text": "Both name parsers are executed on an exhaustively enumerated family of ~3.6 million strings around the two fixed segments (all single-character edits of the prefix and of both segments, double edits, foreign same-length segments, all project/ID fillers up to length 3/4 over an alphabet with '/', '-', digits, letters and a multi-byte character), on random longer strings, and through Create->echo->Get round trips of the real services, including twin names that share 8..4000 bytes and differ in the last byte of the ID or the project (distinct resources, echoed whole, messages routed to the right one). An independent grammar decides acceptance; echo acceptance, same-resource and fixed-point are checked for every accepted string. The family is finite and enumerated completely (exhaustive: true), but the property quantifies over all strings, so the level is exploration.",
             "level_note": "Trusted base: the oracle grammar in harness/src/scen/c18.rs. Rejecting more than the grammar is allowed by the property's 'only if' and is not flagged.",
             "assumptions": ["empty project or ID segments are not flagged by the 'only if' rule; only shape, echo acceptance, same-resource, fixed-point and distinctness are"]},
     "C07": {"level": "exploration", "jobs": c07_jobs, "engine": "dvsim",
             "technique": "runtime monitoring: termination-at-quiescence oracle on a paused virtual clock over seeded burst workloads that saturate actor mailboxes",
-            "level_text": "Burst episodes larger than the 16-slot actor mailboxes (17-60 simultaneous calls mixed with Publish / DeleteSubscription / DeleteTopic / CreateSubscription and stream control messages) run against the real services; on the paused clock one virtual hour passes only when no task can run, so any call still pending then can never complete. Hook counters prove that mailboxes were actually full. Exploration: the quantifier is over schedules, which are sampled (seeded yields at every mailbox site).",
+            "level_text": "Burst episodes larger than the 16-slot actor mailboxes (17-60 simultaneous calls mixed with Publish / DeleteSubscription / DeleteTopic / CreateSubscription and stream control messages) run against the real services; on the paused clock one virtual hour passes only when no task can run, so any call still pending then can never complete. Hook counters prove that mailboxes were actually full. The burst may contain a DeleteSubscription abandoned by its client, and a delete probe afterwards must be answered. Lock nesting (manager -> registry) is exercised on a 6-worker runtime with the real clock: the push loop ticks every 1-3 ms over 300-1200 push subscriptions while clients create / look up / delete push subscriptions; a monitor thread outside the runtime counts completed calls, and 15 s without a single completion while calls are outstanding is a violation (blocked threads complete nothing; a slow machine completes little, not nothing). Exploration: the quantifier is over schedules, which are sampled (seeded yields at every mailbox site).",
             "level_note": SIM_NOTE,
             "assumptions": ["'bounded amount of server work' is decided as: returned by the time the paused clock has auto-advanced one hour (5 min + 1 s for blocking pulls)"]},
     "C12": {"level": "exploration", "jobs": c12_jobs, "engine": "dvsim",
             "technique": "runtime monitoring: quiescence oracle over recorded client-boundary histories of seeded virtual-time episodes",
-            "level_text": "Thousands of seeded episodes of the real gRPC stack on a paused clock: open streams (request side open/closed), blocked pulls and in-flight calls are raced against DeleteSubscription under seeded select!/yield schedules on two transports; one virtual second after the delete returned the monitor requires every stream to have ended NOT_FOUND and every blocked pull to have returned an error. Exploration is the right level because the quantifier is over schedules, which can only be sampled.",
+            "level_text": "Thousands of seeded episodes of the real gRPC stack on a paused clock: open streams (request side open/closed), blocked pulls and 0-10 (a third of the episodes: 17-70) in-flight calls are raced against DeleteSubscription under seeded select!/yield schedules on two transports; one virtual second after the delete returned the monitor requires every stream to have ended NOT_FOUND and every blocked pull to have returned an error. Exploration is the right level because the quantifier is over schedules, which can only be sampled.",
             "level_note": SIM_NOTE,
             "assumptions": ["'as soon as the deletion has been processed' is decided one virtual second after DeleteSubscription returned OK, at a quiescent point"]},
 }
